@@ -22,7 +22,7 @@ CHECKS = {
               "node-processing code), on every DAG of 3 nodes (and join-containing DAGs of 4) with parallel-edge and literal "
               "variants, 1-3 workers, all three queue kinds with RandomQueue draws enumerated; plus uberjob.run on every "
               "3-call plan over all edge kinds in every pop order the queue permits. Oracle: at every call start all logical "
-              "ancestors have ended successfully."),
+              "ancestors have ended successfully. Also with failing calls whose error budget is not exhausted (max_errors 1/None): a call must not start when an ancestor FAILED; and chains of two literals that both survive pruning."),
         design_ref="DESIGN.md section 4, C01; section 3 E1",
         note=E1_NOTE,
         technique="stateless model checking of the implementation (preemption-bounded DFS over thread schedules, bytecode-level scheduling points)",
@@ -32,7 +32,7 @@ CHECKS = {
         text=("Same stateless model checking of the real engine as C01 with the exactly-once oracle: per execution every node's start count is <= 1, "
               "after a normal return the executed set equals the ancestors of the requested output, and the queue is drained (unfinished_tasks == 0, no items left). "
               "API level: every 3-call plan over edge kinds x every output specification (none, literals only, single node, lists, nested containers, a bare Literal with dependencies), "
-              "where every call the output does not need raises if it is ever run."),
+              "where every call the output does not need raises if it is ever run. Also fault patterns (a run that returns normally must have executed everything the output needs, whatever a call raised) and a sequential enumeration retry x falsy return values (a success returning None/0/False/'' runs exactly once)."),
         design_ref="DESIGN.md section 4, C04", note=E1_NOTE,
         technique="stateless model checking of the implementation (preemption-bounded DFS, bytecode-level points) + bounded-exhaustive plan/output enumeration",
     ),
@@ -41,7 +41,7 @@ CHECKS = {
         text=("Stateless model checking of the real engine over fault patterns: every non-empty subset of nodes of every 3-node DAG raises "
               "(Exception, custom BaseException, SystemExit), max_errors in {0,1,None}, 1-2 workers (3 in thorough), all queue kinds; API level with CallError identity checks. "
               "Oracle per execution: no descendant of a failed call starts; run raises; the error names a call that raised, __cause__ is that very exception object; "
-              "with one worker it is the first failure."),
+              "with one worker it is the first failure. Also literal hubs (m predecessors x k successors sharing one literal, as dependency or argument) with failing predecessors."),
         design_ref="DESIGN.md section 4, C06", note=E1_NOTE,
         technique="stateless model checking of the implementation over enumerated fault patterns",
     ),
@@ -50,7 +50,7 @@ CHECKS = {
         text=("Deadlock / livelock / after-return oracles of the explorer on corner configurations (0-2 node graphs with 1..n+2 workers, BaseException in workers, "
               "all queue kinds, every instruction of the pool set-up/tear-down code a scheduling point), bounded-exhaustive cycle enumeration at the API "
               "(cycles of length 1-3 through every edge kind, with/without registry, needed/unneeded by the output), and the binding of the shim threading layer "
-              "(litmus suite explored completely and compared with real threads; free-running conformance runs of the same harness bodies)."),
+              "(litmus suite explored completely and compared with real threads; free-running conformance runs of the same harness bodies). Also: the bundled console observers (their update thread on the shim layer) as members of progress=[...] with a member that fails to start, and a refused Thread.start() as an environment choice - every thread run started must still exit."),
         design_ref="DESIGN.md section 4, C07; section 3 E1 binding", note=E1_NOTE,
         technique="stateless model checking (deadlock/livelock detection under a controlled scheduler) + bounded-exhaustive cycle enumeration",
     ),
@@ -59,7 +59,7 @@ CHECKS = {
         text=("Stateless model checking with asynchronous-exception injection: one KeyboardInterrupt is raised in the calling thread at every scheduling point "
               "(every instruction of the worker-pool creation / shutdown code, every blocking wait such as queue.join) at which a call is in flight, combined with "
               "preemption-bounded schedules. Oracle: run terminates with KeyboardInterrupt, in-flight calls complete, no call is dequeued after the caller began joining, "
-              "no call is dequeued+started after the interrupt when the caller ran whenever it could, observer exited, every thread exits, nothing runs after return."),
+              "no call is dequeued+started after the interrupt when the caller ran whenever it could, observer exited, every thread exits, nothing runs after return. Also: configurations where a call fails after the interrupt while another completes and makes children ready (random queue, draws enumerated), and a real-SIGINT conformance pass in subprocesses with unmodified threading."),
         design_ref="DESIGN.md section 4, C17", note=E1_NOTE + " A signal that lands inside C code is represented by the nearest bytecode boundary / modelled blocking wait of the calling thread.",
         technique="stateless model checking with interrupt injection at every scheduling point of the calling thread",
     ),
@@ -100,7 +100,7 @@ CHECKS = {
         engine="E2", category="model_checking",
         text=("Twin-world check inside the same fixpoint BFS: in every reachable state and for every output x fresh_time, a dry run on a twin world must log nothing but modified-time queries and leave the stores unchanged; "
               "the returned physical plan is then executed alone (no registry, all its nodes requested) and must perform the same multiset of calls/reads/writes, obey the same ordering constraints, yield the same output "
-              "and leave the same stored values as the real run from that state."),
+              "and leave the same stored values as the real run from that state. The returned plan is also compared structurally with the physical plan the real run executes (captured through transform_physical), with and without a user transform_physical."),
         design_ref="DESIGN.md section 4, C14", note=E2_NOTE,
         technique="explicit-state model checking (fixpoint BFS) with differential twin-world oracle",
     ),
@@ -122,7 +122,7 @@ CHECKS = {
         text=("Bounded-exhaustive enumeration of values per store domain through the real store classes (direct, pathlib paths, and through a MountedStore): TextFileStore x 5 encodings x "
               "{all strings of length <= 3 over a 9-symbol alphabet of line terminators / control characters / BOM / astral code points, every Unicode scalar value}, JsonFileStore x all JSON values up to a size bound, "
               "PickleFileStore, BinaryFileStore (all byte strings up to a length bound + 64 KiB), TouchFileStore; oracle: read() equal and of the same type recursively, get_modified_time None exactly before the first write and never decreasing; "
-              "plus every operation sequence of length <= 4 over {write v1, write v2, read, get_modified_time}. The quantifier is over values, so the deciding step is complete enumeration below the stated bounds."),
+              "plus every operation sequence of length <= 4 over {write v1, write v2, read, get_modified_time}. The quantifier is over values, so the deciding step is complete enumeration below the stated bounds. Also (E1): threads each writing and reading back through their own MountedStore, every interleaving within the preemption bound, every instruction of MountedStore.read/write a scheduling point."),
         design_ref="DESIGN.md section 4, C12",
         note="Bounds as in the evidence file; NaN and non-str dict keys are outside the JSON domain; 'large' = 64 KiB; file-system timestamp granularity means equal times are accepted as 'not decreasing'.",
         technique="bounded-exhaustive input enumeration against a reference (identity) model",
@@ -143,7 +143,7 @@ CHECKS = {
         text=("Complete enumeration of (kind of symbolic call x call-site nesting depth x workers): plan.call, explicit gather, implicit gather inside plan.call, unpack (the unpack call and its getitem nodes), "
               "registry.add with failing write / failing read-back, registry.source with failing read, failing modified-time query of a source / of an added node, source run without its registry, and the gather run() builds for a container output; "
               "creation happens through 0..6 nested helper calls on a raw thread whose stack starts at the harness entry, so real stacks of 2..8 frames (shallower than, equal to, deeper than the 4-frame limit) all occur. "
-              "The expected chain is captured with sys._getframe on the creating line itself; oracle: CallError.call is the failing call, its stack_frame chain equals the real stack innermost-first up to the limit, truncation marker iff more frames existed, and str(error) lists the same frames outermost first."),
+              "The expected chain is captured with sys._getframe on the creating line itself; oracle: CallError.call is the failing call, its stack_frame chain equals the real stack innermost-first up to the limit, truncation marker iff more frames existed, and str(error) lists the same frames outermost first. Every kind is also run on Plan.copy()/Registry.copy()."),
         design_ref="DESIGN.md section 4, C19",
         note="getitem nodes of unpack cannot fail at run time; their frames are checked statically. Depths 0..6 cover both sides of MAX_TRACEBACK_DEPTH (read from the module at run time).",
         technique="bounded-exhaustive enumeration of call-site kinds and stack depths against independently captured stacks",
@@ -178,7 +178,7 @@ CHECKS = {
               "(missing and fresh stored values), every fault pattern of {Exception, BaseException, SystemExit} calls, max_errors in {0,1,None}, 1-2 workers, both schedulers, single and composite observers; every schedule within the preemption bound. "
               "Oracle = an automaton over each execution's notification sequence: enter first; exit exactly once, last, with the exception type iff run raised; totals announced before anything runs in that (section, scope); "
               "running never negative nor above total; with calls ending normally or by Exception every running matched by exactly one completed/failed and nothing running at exit; after success completed == total everywhere, "
-              "'run' totals per user scope == independently counted executed calls with that scope, 'stale' totals == number of calls examined; composite members receive identical sequences."),
+              "'run' totals per user scope == independently counted executed calls with that scope, 'stale' totals == number of calls examined; composite members receive identical sequences. Also: progress=[...] lists with a member whose __enter__ raises (earlier members must be exited exactly once), and one composite Progress reused for two runs (observers are single-use)."),
         design_ref="DESIGN.md section 4, C15", note=E1_NOTE,
         technique="stateless model checking of the implementation with an automaton oracle over observer notifications",
     ),
@@ -187,7 +187,7 @@ CHECKS = {
         engine="E1", category="model_checking",
         text=("Stateless model checking of uberjob.run where every call returns a fresh weak-referenceable object and a recording observer's 'completed' notification marks the end of a call's engine-side processing: "
               "all DAGs on 3 and 4 calls and the seven shapes of tests/test_scheduler.py (argument and keyword edges), outputs none / last node / all sinks, with and without a registry, 1-2 workers, both schedulers with RandomQueue draws enumerated, "
-              "every schedule within the preemption bound. At EVERY call start and EVERY completed notification of every execution, each result whose producer and all needed consumers are completed and which is not part of the output must be dead after gc.collect(); output results must be alive at return."),
+              "every schedule within the preemption bound. At EVERY call start and EVERY completed notification of every execution, each result whose producer and all needed consumers are completed and which is not part of the output must be dead after gc.collect(); output results must be alive at return. Also plain-dependency edges (calls nobody consumes) and failing consumers (Exception/BaseException/SystemExit, max_errors=None); the first failing call pinning its arguments is a recorded known finding."),
         design_ref="DESIGN.md section 4, C16", note=E1_NOTE + " Liveness is observed through weakref + gc.collect(); results reference nothing, stores keep no reference to written values.",
         technique="stateless model checking of the implementation with a weak-reference liveness oracle at every call boundary",
     ),
@@ -197,7 +197,7 @@ CHECKS = {
         text=("Stateless model checking of uberjob.run under the controlled scheduler: (a) in-flight counters inside call functions, store operations and modified-time queries - over every schedule within the bound the number in flight never exceeds max_workers (stale_check_max_workers for the queries); "
               "(b) w independent ready calls block on a harness rendezvous until w are in flight: with max_workers = w (and w+1) every schedule must complete - a serialising engine deadlocks and is reported - and with w-1 every schedule must deadlock (harness sanity); "
               "(c) every non-empty set of failing calls (Exception / BaseException / SystemExit) on 5 graphs x max_errors in {None,0,1,2} x 1-2 workers: failed calls <= k + workers, with one worker exactly min(k+1, failing calls without failed dependency), None => every call without failed dependency ran; "
-              "(d) sequential bounded-exhaustive retry: operation kind {call, store read, store write, modified-time query} x fails on the first j in 0..4 attempts x retry n in 1..4 and two custom decorators: attempts == min(n, j+1), eventual success feeds dependants, the reported cause is the last attempt's exception object, custom decorators are applied to every operation kind."),
+              "(d) sequential bounded-exhaustive retry: operation kind {call, store read, store write, modified-time query} x fails on the first j in 0..4 attempts x retry n in 1..4 and two custom decorators: attempts == min(n, j+1), eventual success feeds dependants, the reported cause is the last attempt's exception object, custom decorators are applied to every operation kind. Rendezvous also among calls that only become ready later (fan-out from one root), and work that appears after the error limit was hit."),
         design_ref="DESIGN.md section 4, C10", note=E1_NOTE,
         technique="stateless model checking of the implementation (in-flight counters, rendezvous liveness, fault patterns) + bounded-exhaustive retry enumeration",
     ),
